@@ -20,6 +20,15 @@ pub fn gen(prop: &str, tier: &str, seed: u64, out: &mut Vec<String>) {
                                     continue;
                                 }
                                 out.push(format!("store {fl} {kind} {size} {bs} {} {n}", r.below(1 << 20)));
+                                // a backing that ends early (io kinds: error / zero pair on load, the file grows on save;
+                                // memory kinds: an index panic)
+                                if r.chance(1, 6) {
+                                    let full = (((size + (1024u64 << bs) - 1) / (1024u64 << bs)).max(1) - 1) * 64;
+                                    if full > 0 {
+                                        let l = *r.pick(&[0, 1, 63, 64, 65, full / 2, full - 1, full - 64]);
+                                        out.push(format!("store {fl} {kind} {size} {bs} {} {n} short{}", r.below(1 << 20), l.min(full)));
+                                    }
+                                }
                             }
                         }
                     }
@@ -77,6 +86,9 @@ pub fn gen(prop: &str, tier: &str, seed: u64, out: &mut Vec<String>) {
             }
         }
         "MISCSERDE" => {
+            for n in [0u64, 1, 4, 1024, 99999] {
+                out.push(format!("misc dbg {n}"));
+            }
             for k in 0..=4 {
                 out.push(format!("misc parentde {k}"));
             }
